@@ -19,6 +19,22 @@ class ClassInfo:
     nested: dict = field(default_factory=dict)      # name -> ClassDef
 
 
+class _Owner:
+    """(package, class name) attached to a method's FunctionDef; copying a node shares it (never copies the package)"""
+    __slots__ = ("pkg", "cls")
+
+    def __init__(self, pkg, cls):
+        self.pkg, self.cls = pkg, cls
+
+    def __iter__(self):
+        return iter((self.pkg, self.cls))
+
+    def __deepcopy__(self, memo):
+        return self
+
+    __copy__ = lambda self: self
+
+
 class Package:
     def __init__(self, tree: SourceTree):
         self.tree = tree
@@ -55,6 +71,7 @@ class Package:
                     if isinstance(d, ast.Attribute) and d.attr in ("setter", "deleter"):
                         key = f"{s.name}.{d.attr}"
                 ci.methods[key] = s
+                s._sa_owner = _Owner(self, ci.name)       # lets an analysis handed only the FunctionDef find sibling methods (eqmodel)
             elif isinstance(s, ast.Assign):
                 for t in s.targets:
                     if isinstance(t, ast.Name):
